@@ -165,6 +165,32 @@ def soc_cases(ctx):
                                 "instance": "SoCMini(%s,shared,bus_timeout=%d,bus_data_width=%d)" % (std, t, dw),
                                 "std": std, "t": t, "dw": dw, "seed": seed, "nops": 12 if quick else 30,
                                 "problems": problems[:5]})
+    # glue: SoCBusHandler.do_finalize picks the interconnect.  1 master x 1 slave at a NON-ZERO origin (handler level
+    # with a harness-played slave: unmapped + silent slave; SoCMini whose only slave is the CSR bridge) must still get
+    # decoder + timeout.  A single slave at origin 0 is wired point-to-point as coded: no timeout exists there, it
+    # is outside the obligation (cf. the C06-p2p-* findings) and is only recorded.
+    for std in ("wishbone", "axi-lite", "axi"):
+        for (t, dw) in (((8, 32), (5, 64)) if quick else ((8, 32), (5, 64), (100, 32), (16, 128))):
+            seed = ctx.seed * 1013 + 3 * t + dw
+            problems, k = L.handler_1x1_scenario(std, t, random.Random(seed), dw=dw, nops=8 if quick else 20)
+            n += 1
+            touts += k
+            ctx.cov.count("handler-1x1-timeouts/%s/%db" % (std, dw), k)
+            if problems:
+                out.append({"kind": "soc-scenario", "fn": "handler_1x1_scenario",
+                            "instance": "SoCBusHandler(%s,1 master x 1 slave @0x30000000,timeout=%d,data_width=%d)" % (std, t, dw),
+                            "std": std, "t": t, "dw": dw, "seed": seed, "nops": 8 if quick else 20, "problems": problems[:5]})
+        seed = ctx.seed * 1019 + 7
+        problems, k = L.socmini_csr_only_scenario(std, 8, random.Random(seed), nops=6 if quick else 16)
+        n += 1
+        touts += k
+        ctx.cov.count("socmini-csr-only-timeouts/" + std, k)
+        if problems:
+            out.append({"kind": "soc-scenario", "fn": "socmini_csr_only_scenario",
+                        "instance": "SoCMini(%s, only slave = CSR bridge @0xf0000000, bus_timeout=8)" % std,
+                        "std": std, "t": 8, "dw": 32, "seed": seed, "nops": 6 if quick else 16, "problems": problems[:5]})
+    ctx.cov.notes.append("single slave at origin 0 is wired InterconnectPointToPoint (no decoder, no timeout exists): "
+                         "outside C11's obligation, not checked")
     ctx.cov.add_cases("SoCMini + tb master: unmapped/RAM access sequences, exact termination latency, error indication, "
                       "bus_errors CSR (oracle only)", n, touts, exhaustive=False)
     return out
@@ -293,9 +319,10 @@ def search(ctx, disagreements, proof_info):
             return _fmt(inst, best, r[1] if r else d.kind[8:])
     for d in disagreements:
         if isinstance(d, dict) and d.get("kind") == "soc-scenario":
-            return {"instance": d["instance"], "scenario": {k: d[k] for k in ("std", "t", "dw", "seed", "nops")},
-                    "monitor": "; ".join(d["problems"]),
-                    "letter_format": "replay: c11lib.soc_scenario(std, 'shared', t, random.Random(seed), nops, dw)"}
+            sc = {k: d[k] for k in ("std", "t", "dw", "seed", "nops")}
+            sc["fn"] = d.get("fn", "soc_scenario")
+            return {"instance": d["instance"], "scenario": sc, "monitor": "; ".join(d["problems"]),
+                    "letter_format": "replay: c11lib.<fn>(std, [ 'shared',] t, random.Random(seed), nops=nops[, dw=dw])"}
         if isinstance(d, dict) and d.get("kind") == "monitor":
             return {"instance": d["instance"], "monitor": d["monitor"], "letter_format": "c11lib.measure_env"}
     return generic_search(ctx, mach, all_jobs, FMT)
@@ -325,8 +352,14 @@ def replay(ctx, payload):
     if fi.get("scenario"):
         import random
         sc = fi["scenario"]
-        problems, _ = L.soc_scenario(sc["std"], "shared", sc["t"], random.Random(sc["seed"]), nops=sc["nops"],
-                                     dw=sc.get("dw", 32))
+        fn = sc.get("fn", "soc_scenario")
+        if fn == "handler_1x1_scenario":
+            problems, _ = L.handler_1x1_scenario(sc["std"], sc["t"], random.Random(sc["seed"]), dw=sc["dw"], nops=sc["nops"])
+        elif fn == "socmini_csr_only_scenario":
+            problems, _ = L.socmini_csr_only_scenario(sc["std"], sc["t"], random.Random(sc["seed"]), nops=sc["nops"])
+        else:
+            problems, _ = L.soc_scenario(sc["std"], "shared", sc["t"], random.Random(sc["seed"]), nops=sc["nops"],
+                                         dw=sc.get("dw", 32))
         for p in problems:
             print(p)
         if problems:
